@@ -66,6 +66,12 @@ def build(seed: int, cfg: dict):
             ms.append(workload.ALL ^ (1 << rng.randrange(9)) if rng.random() < 0.4 else rng.randrange(512))
         for m in ms:
             add(b["text"], "auto", "auto", m, b["id"], "sweep")
+        inp, out = workload.decl("outall", b["text"], rng)
+        for m in (workload.DEFAULT, workload.ALL):
+            add(b["text"], inp, out, m, b["id"], "sweep-decl:outall")
+        inp, out = workload.decl("outsinks", b["text"], rng)
+        for m in (workload.DEFAULT, workload.ALL):
+            add(b["text"], inp, out, m, b["id"], "sweep-decl:outsinks")
         if rng.random() < cfg["decl_frac"]:
             for mode in ("explicit", "empty", "absent"):
                 inp, out = workload.decl(mode, b["text"], rng)
@@ -75,16 +81,18 @@ def build(seed: int, cfg: dict):
         ms = [workload.DEFAULT, workload.ALL][: cfg["wide_masks"]]
         while len(ms) < cfg["wide_masks"]:
             ms.append(rng.choice([1 << rng.randrange(9), workload.ALL ^ (1 << rng.randrange(9)), rng.randrange(512)]))
-        for m in ms:
-            add(b["text"], "auto", "auto", m, b["id"], "sweep-wide")
+        for k, m in enumerate(ms):
+            inp, out = ("auto", "auto") if k % 3 == 0 else workload.decl("outall" if k % 3 == 1 else "outsinks", b["text"], rng)
+            add(b["text"], inp, out, m, b["id"], "sweep-wide")
     # twin-joined variants (program + renamed copy + statements joining both bodies): two equally good
     # candidates wherever a pass looks for "the" at-most-one / min-max / sum predicate of a body
-    for b in workload.load_twin() + workload.load_fat():
+    for b in workload.load_twin() + workload.load_fat() + workload.load_twinagg():
         ms = [workload.DEFAULT, workload.ALL][: cfg["wide_masks"]]
         while len(ms) < cfg["wide_masks"]:
             ms.append(rng.choice([1 << rng.randrange(9), workload.ALL ^ (1 << rng.randrange(9)), rng.randrange(512)]))
-        for m in ms:
-            add(b["text"], "auto", "auto", m, b["id"], "sweep-" + b["src"])
+        for k, m in enumerate(ms):
+            inp, out = ("auto", "auto") if k % 3 == 0 else workload.decl("outall" if k % 3 == 1 else "outsinks", b["text"], rng)
+            add(b["text"], inp, out, m, b["id"], "sweep-" + b["src"])
     multi = [b for b in safe if b["text"].count(".") >= 2]
     n = 0
     guard = 0
